@@ -1009,23 +1009,24 @@ theorem uniqueLabel_error_ne_ok {t : Tree} {p : Nat} {label : Str} {strict : Boo
   · cases h
 
 /-- what `add_child` amounts to on a well-formed tree (repaired variant) -/
-def AddSpec (t : Tree) (p c : Nat) (r : Tree × Outcome) : Prop :=
+def AddSpec (t : Tree) (p c : Nat) (lbl : Option Str) (r : Tree × Outcome) : Prop :=
   (∃ e, r = (t, e) ∧ (e = .ok → t.parent c = some p)) ∨
-  (∃ l', r = (relabel t p c l', .ok) ∧ t.parent c = some p ∧ l' ∉ dirOf t p ∧ '/' ∉ l') ∨
+  (∃ l', r = (relabel t p c l', .ok) ∧ t.parent c = some p ∧ l' ∉ dirOf t p ∧ '/' ∉ l' ∧
+      lbl.getD (t.label c) ≠ t.label c) ∨
   (∃ l', r = (adopt t p c l', .ok) ∧ t.parent c = none ∧ t.kind c ≠ .workflow ∧ l' ∉ dirOf t p ∧
       '/' ∉ l' ∧ ¬ Anc t c p ∧ c ≠ p) ∨
   r.2 = .recursionError
 
-theorem AddSpec.good {t : Tree} (h : WFTree t) {p c : Nat} {r : Tree × Outcome}
-    (hs : AddSpec t p c r) : Good t r := by
-  rcases hs with ⟨e, rfl, _⟩ | ⟨l', rfl, hp, hl, hsl⟩ | ⟨l', rfl, hp, hk, hl, hsl, hanc, hne⟩ | hrec
+theorem AddSpec.good {t : Tree} (h : WFTree t) {p c : Nat} {lbl : Option Str} {r : Tree × Outcome}
+    (hs : AddSpec t p c lbl r) : Good t r := by
+  rcases hs with ⟨e, rfl, _⟩ | ⟨l', rfl, hp, hl, hsl, _⟩ | ⟨l', rfl, hp, hk, hl, hsl, hanc, hne⟩ | hrec
   · exact good_same h _
   · exact ⟨fun _ => relabel_wf h hp hl hsl, fun hn => absurd rfl hn⟩
   · exact ⟨fun _ => adopt_wf h hp hk hl hsl hanc hne, fun hn => absurd rfl hn⟩
   · exact good_of_recursion hrec
 
 theorem addChild_spec {cfg : Cfg} (hr : Repaired cfg) {t : Tree} (h : WFTree t) (p c : Nat)
-    (lbl : Option Str) (sa : Option Bool) : AddSpec t p c (addChild cfg t p c lbl sa) := by
+    (lbl : Option Str) (sa : Option Bool) : AddSpec t p c lbl (addChild cfg t p c lbl sa) := by
   unfold addChild
   split
   · exact .inl ⟨_, rfl, fun e => by cases e⟩
@@ -1066,7 +1067,7 @@ theorem addChild_spec {cfg : Cfg} (hr : Repaired cfg) {t : Tree} (h : WFTree t) 
                   have hp' : some p = (relabel t p c l').parent c := hp.symm
                   simp only [hk', if_false, hp', if_true]
                 rw [this]
-                exact .inr (.inl ⟨l', rfl, hp, (uniqueLabel_ok hu).1, hsl⟩)
+                exact .inr (.inl ⟨l', rfl, hp, (uniqueLabel_ok hu).1, hsl, ha⟩)
         · have hp : t.parent c = none := by
             cases hq : t.parent c with
             | none => rfl
@@ -1465,6 +1466,193 @@ theorem replaceChildLabel_good {cfg : Cfg} (hr : Repaired cfg) (h7 : cfg.replace
     · exact replaceChild_good hr h7 h p _ new
 
 
+/-! ## constructors that raise after `Lexical.__init__` -/
+
+/-- parent assignment of an orphan: refused with the tree untouched, or the adoption -/
+theorem setParent_orphan_spec {cfg : Cfg} (hr : Repaired cfg) {t : Tree} (h : WFTree t) {c p : Nat}
+    (hp : t.parent c = none) :
+    (∃ e, e ≠ .ok ∧ setParent cfg t c (some p) = (t, e)) ∨
+    (∃ l', setParent cfg t c (some p) = (adopt t p c l', .ok) ∧ WFTree (adopt t p c l') ∧
+        (t.kind p).isComposite = true) ∨
+    (setParent cfg t c (some p)).2 = .recursionError := by
+  unfold setParent
+  split
+  · left; exact ⟨.parentMostError, by decide, by simp⟩
+  · split
+    · rename_i heq; rw [hp] at heq; cases heq
+    · rename_i hk hne
+      simp only []
+      split
+      · left; exact ⟨.valueError, by decide, rfl⟩
+      · rename_i hcomp
+        simp only [Bool.not_eq_false] at hcomp
+        rcases cyclicCheck_cases cfg t p c with hc | hc | hc
+        · have hpc : p ≠ c := ne_of_cyclicCheck_ok cfg t p c hr.f5 hc
+          have hanc : ¬ Anc t c p := not_anc_of_cyclicCheck_ok cfg t p c hc
+          have hnl : c ∉ vals (t.children p) := by
+            rw [h.mem_vals_iff]; exact fun e => hne e.symm
+          simp only [hc, hr.f2, hnl, not_false_eq_true, and_self, if_true]
+          cases hu : uniqueLabel t p (t.label c) (t.strict p) with
+          | error e => left; exact ⟨e, uniqueLabel_error_ne_ok hu, rfl⟩
+          | ok l' =>
+            simp only [hp]
+            obtain ⟨he, hw⟩ := adopt_via_setParent hr h hp hk hpc hanc hc hu
+            right; left
+            exact ⟨l', he, hw, hcomp⟩
+        · simp only [hc]; left; exact ⟨.cyclicPathError, by decide, rfl⟩
+        · simp only [hc]; right; right; trivial
+
+/-- letting go of a node that has just been adopted, and giving it its label back, restores the tree -/
+theorem undo_adopt_one {t : Tree} (h : WFTree t) {p c : Nat} {l' : Str} (hp : t.parent c = none) :
+    ({ adopt t p c l' with
+        children := updF (adopt t p c l').children p (popVal ((adopt t p c l').children p) c),
+        parent := updF (adopt t p c l').parent c none,
+        label := updF (adopt t p c l').label c (t.label c) } : Tree) = t := by
+  have hnl : c ∉ vals (t.children p) := by rw [h.mem_vals_iff, hp]; simp
+  have hpop : popVal (t.children p ++ [(l', c)]) c = t.children p := by
+    unfold popVal
+    rw [List.filter_append]
+    have := popVal_of_not_mem hnl
+    unfold popVal at this
+    rw [this]; simp
+  apply Tree.ext'
+  · rfl
+  · rfl
+  · rfl
+  · intro x; simp only [adopt, updF]; split <;> simp_all
+  · intro x; simp only [adopt, updF]; split <;> simp_all
+  · intro x
+    simp only [adopt, updF_updF, updF_same, hpop]
+    simp only [updF]; split <;> simp_all
+  · intro x; rfl
+
+theorem not_starting_of_orphan {t : Tree} (h : WFTree t) {p c : Nat} (hp : t.parent c = none) :
+    c ∉ t.starting p := by
+  intro hs
+  obtain ⟨l, hl⟩ := h.starters p c hs
+  have := ((h.agree p c l).mp hl).1
+  rw [hp] at this; cases this
+
+/-- the object right after `self.label = label` of `Lexical.__init__` -/
+abbrev fresh (t : Tree) (c : Nat) (l : Str) : Tree :=
+  { t with label := updF t.label c l, parent := updF t.parent c none }
+
+/-- an accepted construction is the fresh orphan, or the fresh orphan adopted by `np` -/
+theorem newNode_shape {cfg : Cfg} (hr : Repaired cfg) {t : Tree} (h : WFTree t) {c : Nat} {l : Str}
+    {np : Option Nat} (hp : t.parent c = none) {t1 : Tree} (heq : newNode cfg t c l np = (t1, .ok)) :
+    WFTree (fresh t c l) ∧
+    (t1 = fresh t c l ∨
+      ∃ p l', (t.kind p).isComposite = true ∧ t1 = adopt (fresh t c l) p c l') := by
+  simp only [newNode] at heq
+  split at heq
+  · cases heq
+  · rename_i hs
+    have h0 : WFTree (fresh t c l) := orphan_label_wf h hp hs
+    have hp0 : (fresh t c l).parent c = none := by simp [fresh, updF]
+    refine ⟨h0, ?_⟩
+    cases np with
+    | none =>
+      left
+      have : setParent cfg (fresh t c l) c none = (fresh t c l, .ok) := by
+        unfold setParent
+        split
+        · rfl
+        · simp [hp0]
+      rw [this] at heq
+      simp only [Prod.mk.injEq] at heq
+      exact heq.1.symm
+    | some p =>
+      right
+      rcases setParent_orphan_spec hr h0 (p := p) hp0 with ⟨e, hne, he⟩ | ⟨l', he, _, hcomp⟩ | hrec
+      · rw [he] at heq
+        cases e <;> first | exact absurd rfl hne | (simp at heq)
+      · rw [he] at heq
+        simp only [Prod.mk.injEq] at heq
+        exact ⟨p, l', hcomp, heq.1.symm⟩
+      · exfalso
+        generalize setParent cfg (fresh t c l) c (some p) = r at hrec heq
+        obtain ⟨t4, e⟩ := r
+        simp only at hrec; subst hrec
+        simp at heq
+
+theorem ctorRelease_fresh (cfg : Cfg) {t : Tree} {c : Nat} (l : Str) (hp : t.parent c = none) :
+    ctorRelease cfg t (fresh t c l) c = t := by
+  simp only [ctorRelease, fresh, updF_same]
+  apply Tree.ext' <;> intros <;> try rfl
+  · simp only [fresh, updF]; split <;> simp_all
+  · simp only [fresh, updF]; split <;> simp_all
+
+theorem ctorRelease_adopt (cfg : Cfg) {t : Tree} (h : WFTree t) {c p : Nat} (l l' : Str)
+    (hp : t.parent c = none) (h0 : WFTree (fresh t c l)) (hw : WFTree (adopt (fresh t c l) p c l'))
+    (hcomp : (t.kind p).isComposite = true) :
+    ctorRelease cfg t (adopt (fresh t c l) p c l') c = t := by
+  have hp0 : (fresh t c l).parent c = none := by simp [fresh, updF]
+  have hp1 : (adopt (fresh t c l) p c l').parent c = some p := by simp [adopt, updF]
+  have hm : c ∈ vals ((adopt (fresh t c l) p c l').children p) := (hw.mem_vals_iff p c).mpr hp1
+  have hrm : removeChild cfg (adopt (fresh t c l) p c l') p c = (release (adopt (fresh t c l) p c l') p c, .ok) := by
+    unfold removeChild
+    have hc' : ((adopt (fresh t c l) p c l').kind p).isComposite = true := hcomp
+    simp only [hc', hm, if_true, removeListed_eq cfg hw hp1]
+    simp
+  simp only [ctorRelease, hp1, hrm]
+  have hone := undo_adopt_one (p := p) (l' := l') h0 hp0
+  have hns : c ∉ (fresh t c l).starting p := not_starting_of_orphan h0 hp0
+  have hfresh := ctorRelease_fresh cfg l hp
+  -- the release is the one-step undo except for the label and the starting list
+  apply Tree.ext'
+  · rfl
+  · rfl
+  · rfl
+  · intro x
+    simp only [release, removeCore0, adopt, fresh, updF]; split <;> simp_all
+  · intro x
+    have := congrArg (fun t' => t'.parent x) hone
+    simp only [release, removeCore0, adopt, fresh, updF] at this ⊢
+    split <;> simp_all
+  · intro x
+    have := congrArg (fun t' => t'.children x) hone
+    simpa [release, removeCore0, adopt, fresh] using this
+  · intro x
+    simp only [release, removeCore0, adopt, fresh, updF]
+    split
+    · rename_i e; subst e; exact List.erase_of_not_mem hns
+    · rfl
+
+/-- `Cls(label, parent=…)` that raises after the adoption: the invariant holds in what is left,
+and with the rollback (F8) what is left is the tree before -/
+theorem newNodeFail_spec {cfg : Cfg} (hr : Repaired cfg) {t : Tree} (h : WFTree t) (c : Nat) (l : Str)
+    (np : Option Nat) (hp : t.parent c = none) :
+    ((newNodeFail cfg t c l np).2 ≠ .recursionError → WFTree (newNodeFail cfg t c l np).1) ∧
+    (newNodeFail cfg t c l np).2 ≠ .ok ∧
+    (cfg.ctorRollback = true → (newNodeFail cfg t c l np).2 ≠ .recursionError →
+      (newNodeFail cfg t c l np).1 = t) := by
+  have hg := newNode_good hr h c l np hp
+  cases hnn : newNode cfg t c l np with
+  | mk t1 e =>
+    rw [hnn] at hg
+    by_cases he : e = .ok
+    · subst he
+      have hw1 : WFTree t1 := hg.1 rfl
+      obtain ⟨h0, hshape⟩ := newNode_shape hr h hp hnn
+      have hval : newNodeFail cfg t c l np =
+          (if cfg.ctorRollback then ctorRelease cfg t t1 c else t1, .setupError) := by
+        simp only [newNodeFail, hnn]
+      have hfin : ctorRelease cfg t t1 c = t := by
+        rcases hshape with e | ⟨p, l', hcomp, e⟩
+        · rw [e]; exact ctorRelease_fresh cfg l hp
+        · rw [e] at hw1 ⊢; exact ctorRelease_adopt cfg h l l' hp h0 hw1 hcomp
+      rw [hval]
+      refine ⟨fun _ => ?_, by simp, fun h8 _ => ?_⟩
+      · by_cases h8 : cfg.ctorRollback = true
+        · simp only [h8, if_true, hfin]; exact h
+        · simp only [h8, Bool.false_eq_true, if_false]; exact hw1
+      · simp only [h8, if_true, hfin]
+    · have hval : newNodeFail cfg t c l np = (t, e) := by
+        simp only [newNodeFail, hnn]
+        cases e <;> first | exact absurd rfl he | rfl
+      rw [hval]
+      exact ⟨fun _ => h, he, fun _ _ => rfl⟩
+
 /-! ## operations and histories -/
 
 /-- what is the caller's business, not the library's: a freshly constructed object has no owner
@@ -1574,6 +1762,52 @@ theorem wf_of_rank {t : Tree} (rank : Nat → Nat) (h : ∀ c p, t.parent c = so
   apply Subrelation.wf (r := InvImage (· < ·) rank) _ (InvImage.wf rank Nat.lt_wfRel.wf)
   intro a b hab
   exact h b a hab
+
+/-! ## termination of the ancestor walk -/
+
+/-- with a rank that strictly decreases towards the parent, the walk of
+`_ensure_path_is_not_cyclic` started at `x` ends within `rank x + 1` iterations -/
+theorem ancWalk_terminates_of_rank (t : Tree) (rank : Nat → Nat)
+    (hr : ∀ c p, t.parent c = some p → rank p < rank c) (c : Nat) :
+    ∀ n x, rank x < n → ancWalk t c n x ≠ .recursionError := by
+  intro n
+  induction n with
+  | zero => intro x h; omega
+  | succ n ih =>
+    intro x h
+    simp only [ancWalk]
+    split
+    · simp
+    · split
+      · simp
+      · rename_i q hq
+        have := hr x q hq
+        exact ih q (by omega)
+
+/-- … and on such a tree the hardened walk (visited set) never meets a node twice: it computes
+exactly what the plain walk computes -/
+theorem ancWalkSeen_eq (t : Tree) (rank : Nat → Nat)
+    (hr : ∀ c p, t.parent c = some p → rank p < rank c) (c : Nat) :
+    ∀ n seen x, (∀ s ∈ seen, rank x < rank s) → ancWalkSeen t c n seen x = ancWalk t c n x := by
+  intro n
+  induction n with
+  | zero => intro seen x _; rfl
+  | succ n ih =>
+    intro seen x hs
+    simp only [ancWalkSeen, ancWalk]
+    split
+    · rfl
+    · have hx : x ∉ seen := fun hm => Nat.lt_irrefl _ (hs x hm)
+      simp only [hx, if_false]
+      split
+      · rfl
+      · rename_i q hq
+        have hlt := hr x q hq
+        apply ih
+        intro s hm
+        rcases List.mem_cons.mp hm with e | hm
+        · subst e; exact hlt
+        · exact Nat.lt_trans hlt (hs s hm)
 
 /-- every cycle that an adoption would really close is refused, in every variant, with the
 tree untouched -/
